@@ -537,10 +537,19 @@ def program_families(ctx, pool, idx, thorough):
         b1 = bads[k1]()
         if r.random() < 0.4:
             b1 = Call("text::concat", r.choice(good), b1)          # the failure sits inside a nested call
-        shape = r.choice(["collect", "named-right", "named-left", "slash"])
+        shape = r.choice(["collect", "named-right", "named-left", "slash", "named-permuted", "named-permuted"])
         if shape == "slash":
             flat = {"name": lambda: Ref("unbound_arg%d" % r.randint(0, 9)), "type": lambda: Ref("ipv4::tcp")}
             e = Slash(flat[k1](), flat[k2]())
+        elif shape == "named-permuted":
+            # two keyword arguments written in the reverse of their declaration order
+            fn, lead, decl = r.choice([("ipv4::datagram", [IP("1.1.1.1"), IP("2.2.2.2")], ["id", "evil", "df", "mf", "ttl", "frag_off", "proto"]),
+                                       ("eth::frame", [], ["src", "dst", "ethertype"]),
+                                       ("ipv4::tcp::flow", [SOCK("1.1.1.1", 1), SOCK("2.2.2.2", 2)], ["cl_seq", "sv_seq", "raw"]),
+                                       ("dns::host", [IP("1.1.1.1"), STR(b"a.b")], ["ttl", "ns", "raw"])])
+            i1, i2 = sorted(r.sample(range(len(decl)), 2))
+            e = Call(fn, *lead, _x=[r.choice(good)] if fn != "ipv4::tcp::flow" and r.random() < 0.5 else [],
+                     **{decl[i2]: bads[k1](), decl[i1]: bads[k2]()})
         elif shape == "collect":
             args = [r.choice(good) for _ in range(r.randint(0, 2))] + [b1] + [r.choice(good) for _ in range(r.randint(0, 1))] \
                    + [bads[k2]()] + [r.choice(good) for _ in range(r.randint(0, 1))]
@@ -712,7 +721,9 @@ class World:
                 e = Call(kind + "::session", IP(rand_ip(r)), IP(rand_ip(r)))
             self.decls.append(Let(n, e))
             self.tun.append((n, kind))
-        self.header = [Import(m) for m in ("ipv4", "text", "eth", "gre", "erspan1", "erspan2", "vxlan", "time", "std")]
+        self.header = [Import(m) for m in ("ipv4", "text", "eth", "gre", "erspan1", "erspan2", "vxlan", "time", "std", "io", "tls")]
+        self.nbuf = 0
+        self.named_out_of_order = 0
         self.nest_count = 0
 
     def text(self):
@@ -766,6 +777,60 @@ class World:
                 n, kind = r.choice(self.tun)
                 e = Call(n + ".encap", e)
         return e
+
+    def named_stmts(self):
+        """[let b = io::bufio(..), statement]: a call whose NAMED arguments, written in a random permutation of the
+        declaration order, each hold a call on shared objects (buffer reads, and through them every other argument);
+        leading positional arguments before and a collected tail after them"""
+        r = self.r
+        self.nbuf += 1
+        b = "b%d" % self.nbuf
+        decl = Let(b, Call("io::bufio", STR(bytes(r.getrandbits(8) for _ in range(r.randint(16, 60)))), STR(b"0123456789ab")))
+        rd = lambda k: Call(b + ".read", INT(k))
+        ln = lambda: Call("text::len", r.choice([rd(r.randint(1, 9)), rd(r.randint(1, 9)), Call(b + ".read_all")]))
+        tail = []
+        for _ in range(r.randint(0, 2)):
+            tail.append(r.choice([rd(r.randint(1, 5)), self.text(), self.pkt(0)]))
+        shape = r.choice(["datagram", "datagram", "frame", "hello", "segment", "tcpflow"])
+        if shape == "datagram":
+            decl_order = ["id", "evil", "df", "mf", "ttl", "frag_off", "proto"]
+            names = r.sample(["id", "ttl", "frag_off", "proto"], r.randint(2, 4))
+            kw = {n: ln() for n in names}
+            e = Call("ipv4::datagram", IP(rand_ip(r)), IP(rand_ip(r)), _x=tail, **kw)
+        elif shape == "frame":
+            decl_order = ["src", "dst", "ethertype"]
+            names = r.sample(decl_order, r.choice([2, 3]))
+            kw = {n: (ln() if n == "ethertype" else rd(6)) for n in names}
+            lead = []
+            if "src" not in names:             # src positional, the rest by name
+                lead = [rd(6)]
+            elif "dst" not in names:
+                names = [n for n in names if n != "src"] ; kw.pop("src"); lead = [rd(6)]; kw["dst"] = rd(6); names = list(kw)
+            e = Call("eth::frame", *lead, _x=tail, **{n: kw[n] for n in names})
+        elif shape == "hello":
+            decl_order = ["version", "sessionid", "ciphers", "compression"]
+            names = r.sample(decl_order, r.randint(2, 4))
+            kw = {n: (ln() if n == "version" else rd(r.randint(1, 4))) for n in names}
+            e = Call("ipv4::datagram", IP(rand_ip(r)), IP(rand_ip(r)), Call("tls::client_hello", _x=tail, **kw))
+        elif shape == "segment":
+            decl_order = ["seq", "ack"]
+            names = r.sample(decl_order, 2)
+            kw = {n: ln() for n in names}
+            e = Call(r.choice(self.tcp) + "." + r.choice(["client_segment", "server_segment", "client_message"]), _x=tail or [self.text()], **kw)
+        else:
+            decl_order = ["cl_seq", "sv_seq", "raw"]
+            names = r.sample(["cl_seq", "sv_seq"], 2)
+            kw = {n: ln() for n in names}
+            f = "tn%d" % self.nbuf
+            flow = Let(f, Call("ipv4::tcp::flow", SOCK(rand_ip(r), 1), SOCK(rand_ip(r), 2), **kw))
+            idx = [decl_order.index(n) for n in names]
+            if idx != sorted(idx):
+                self.named_out_of_order += 1
+            return [decl, flow, Do(Call(f + ".open"))]
+        idx = [decl_order.index(n) for n in names if n in decl_order]
+        if idx != sorted(idx):
+            self.named_out_of_order += 1
+        return [decl, Do(e)]
 
     def probes(self):
         out = []
@@ -824,6 +889,9 @@ def nest_families(ctx, pool, idx, thorough):
     w = World(r, idx)
     body, stored = [], []
     for k in range(r.randint(2, 6)):
+        if r.random() < 0.3:
+            body += w.named_stmts()
+            continue
         e = w.emittable(r.choice([1, 2, 2, 3]))
         q = r.random()
         if q < 0.3:
@@ -847,7 +915,7 @@ def nest_families(ctx, pool, idx, thorough):
     pool.fam("hoist", {"hoisted": nh, "nested_stateful": w.nest_count}, variant=v, base=base)
     hr, _ = hoist(st, start, "rtl")
     ctl, _ = pool.add(hr)
-    return (base, v, ctl, nh, w.nest_count)
+    return (base, v, ctl, nh, w.nest_count, w.named_out_of_order)
 
 
 # ---------------------------------------------------------------- (iv) stored values in any order
@@ -943,7 +1011,7 @@ def run(ctx):
 
     # the model's call trace: nested == sequenced (the theorems' "exactly once, left to right")
     differs = 0
-    for base, v, ctl, nh, ns in nests:
+    for base, v, ctl, nh, ns, noo in nests:
         tb, tv = C[base].model.get("trace"), C[v].model.get("trace")
         if C[base].model["status"] == "ok" and tb != tv and base not in failed_progs:
             ctx.fail("trace-differs", "the model's library-call trace of the nested program differs from its sequenced variant",
@@ -957,6 +1025,7 @@ def run(ctx):
         "impl_ok": ok_cases, "impl_err": err_cases,
         "nest_programs": len(nests), "nest_hoisted_calls_total": sum(x[3] for x in nests),
         "nest_stateful_nested_calls_total": sum(x[4] for x in nests),
+        "nest_calls_with_named_args_out_of_declaration_order": sum(x[5] for x in nests),
         "nest_order_matters_fraction": round(differs / max(1, len(nests)), 3),
         "perm_programs": len(sigmas),
         "perm_not_in_definition_order_fraction": round(sum(1 for s in sigmas if s != sorted(s)) / max(1, len(sigmas)), 3),
